@@ -125,6 +125,15 @@ def interpolation(rep, an):
                   construct="interpolator(new_domain)", entry=entry, config=res.config)
         R.rule_dtype_casts(rep, res, entry)
         R.rule_iterator_reuse(rep, res, entry)
+        R.rule_last_iteration_wins(rep, res, entry)
+        # the step of a domain is the MEAN of its sample spacings (the statement's "coarsest mean input step"): no other statistic of them
+        for sv in res.events("ext_call"):
+            if sv.d["args"] and sv.d["args"][0].tag("spacings_of") is not None and sv.d["dotted"].split(".")[-1] in (
+                    "median", "min", "max", "amin", "amax", "percentile", "quantile", "nanmedian", "nanmin", "nanmax", "std", "ptp"):
+                rep.violated("R-VALUE", "the step of a domain is the mean of its spacings", where=sv.loc, construct=sv.text()[:80], entry=entry,
+                             config=res.config,
+                             msg=f"the spacings of an input domain are summarised with `{sv.d['dotted'].split('.')[-1]}`: for a non-uniform domain that "
+                                 f"is not its mean step, so the common grid is not built with the coarsest MEAN input step")
         R.rule_every_iteration_reaches(rep, res, "interp1d", "the interpolation onto the common domain", entry, fn_name="_interpolate_domains")
         for tv in res.events("abs_tolerance"):
             at = tv.d.get("atol")
